@@ -83,6 +83,9 @@ type c16Case struct {
 	ForkStep   int
 	ForkAt     uint64
 	ForkSuffix []c16Ev
+	// Instant: the L2 has instant finality (finalized == latest) and blocks are also sealed in the middle of a poll
+	// (between the node's range query and its next finality query). No reorgs then.
+	Instant bool
 }
 
 // canonical returns the final canonical chain's events per block.
@@ -132,7 +135,8 @@ func c16Gen(rt *rapid.T) c16Case {
 	if rapid.IntRange(0, 2).Draw(rt, "restart") == 0 {
 		c.RestartAt = rapid.IntRange(2, 40).Draw(rt, "restartAt")
 	}
-	if len(c.Gaps) >= 2 && rapid.IntRange(0, 2).Draw(rt, "l2Reorg") == 0 {
+	c.Instant = rapid.IntRange(0, 3).Draw(rt, "instantFinality") == 0
+	if !c.Instant && len(c.Gaps) >= 2 && rapid.IntRange(0, 2).Draw(rt, "l2Reorg") == 0 {
 		step := rapid.IntRange(1, len(c.Gaps)-1).Draw(rt, "forkStep")
 		lat := 0
 		for _, g := range c.Gaps[:step] {
@@ -276,6 +280,7 @@ func c16Run(c c16Case) (verdict string, inconcl string) {
 		rpcs      int
 		restarted bool
 		forked    bool
+		midPoll   bool
 		cancelFn  context.CancelFunc
 		// observation O7: EVMDriver.handleReorg retries processor.Reorg for ever on a cancelled context, so Sync does not
 		// return when it is cancelled inside a reorg; such an instance is abandoned like a killed process
@@ -285,7 +290,15 @@ func c16Run(c c16Case) (verdict string, inconcl string) {
 		mu.Lock()
 		defer mu.Unlock()
 		if call.Method == "HeaderByNumber" && call.Tag == "finalized" {
-			return nil // the reorg detector's sweep: not a node poll for new blocks
+			// the reorg detector's sweep or the downloader's finality query: not a poll for new blocks. On an L2 with
+			// instant finality a block can be sealed between the downloader's range query and its finality query.
+			if c.Instant && midPoll && step < len(c.Gaps) {
+				midPoll = false
+				lat = min64(lat+uint64(c.Gaps[step]), n)
+				step++
+				ch.SetPointersLocked(lat, lat, lat)
+			}
+			return nil
 		}
 		rpcs++
 		if c.RestartAt >= 0 && !restarted && rpcs == c.RestartAt && cancelFn != nil {
@@ -312,11 +325,15 @@ func c16Run(c c16Case) (verdict string, inconcl string) {
 			if lat > 3 {
 				fin = lat - 3
 			}
+			if c.Instant {
+				fin = lat
+			}
 			ch.SetPointersLocked(lat, lat, fin)
 		} else if call.Method == "FilterLogs" {
 			// only the downloader's range queries count as activity: the reorg detector re-reads the headers of the tracked
 			// (not yet finalized) blocks on every sweep, for ever
 			parked = 0
+			midPoll = true
 		}
 		return nil
 	}
@@ -442,6 +459,9 @@ func TestC16(t *testing.T) {
 		}
 		if c.ForkAt != 0 {
 			rec.Class("with_l2_reorg")
+		}
+		if c.Instant {
+			rec.Class("with_instant_finality_and_blocks_sealed_mid_poll")
 		}
 		rec.Set("forks_moved_above_a_visible_removal_known_finding_F4", c16ExcludedF4)
 		if nt && rec.WantSample() {
